@@ -18,7 +18,8 @@ pub fn gen(stream: &str, tier: &str, seed: u64, out: &mut dyn Write) -> bool {
     let mut r = Rng(seed ^ 0x9b0b);
     let mut lines = vec![];
     match stream {
-        "C05" => { shared::rtverbs::gen_scalar_level(&mut r, thorough, &mut lines); shared::msgverbs::gen_message_level(&mut r, thorough, &mut lines); }
+        "C05" => { shared::rtverbs::gen_scalar_level(&mut r, thorough, &mut lines); shared::msgverbs::gen_message_level(&mut r, thorough, &mut lines); shared::adv::gen_wrappers(&mut r, thorough, &mut lines); }
+        "C18" => { shared::msgverbs::gen_merge_level(&mut r, thorough, &mut lines); }
         "C10" => { shared::adv::gen_adversarial(&mut r, thorough, &mut lines); }
         _ => return false,
     }
